@@ -53,12 +53,20 @@ def dump_store(coll):
     return [(canon(k), canon(d)) for k, d in coll._store._documents.items()]
 
 
-def run_op(coll, op, clock):
-    """Execute one operation; returns the canonical outcome (a Python value) or raises."""
+def run_op(coll, op, clock, a=None, keep=None):
+    """Execute one operation; returns the canonical outcome (a Python value) or raises.
+    a: the argument objects to pass (default: a deep copy of op); keep: a list receiving the
+    raw objects the library handed back (C07)."""
     o = op['op']
-    a = copy.deepcopy(op)
+    a = copy.deepcopy(op) if a is None else a
+
+    def kept(x):
+        if keep is not None:
+            keep.append(x)
+        return x
     if o == 'insert_one':
         r = coll.insert_one(a['doc'])
+        kept(r.inserted_id)
         return {'inserted_id': r.inserted_id, '$caller_id': a['doc'].get('_id', common)}
     if o == 'insert_many':
         try:
@@ -68,11 +76,11 @@ def run_op(coll, op, clock):
             return {'BulkWriteError': {
                 'writeErrors': [{'index': w['index'], 'code': w['code']} for w in d['writeErrors']],
                 'nInserted': d['nInserted']}}
-        return {'inserted_ids': list(r.inserted_ids)}
+        return {'inserted_ids': list(kept(r.inserted_ids))}
     if o == 'update':
         fn = coll.update_many if a['multi'] else coll.update_one
         r = fn(a['filter'], a['update'], upsert=a['upsert'])
-        return {'matched': r.matched_count, 'modified': r.modified_count, 'upserted_id': r.upserted_id}
+        return {'matched': r.matched_count, 'modified': r.modified_count, 'upserted_id': kept(r.upserted_id)}
     if o == 'replace':
         r = coll.replace_one(a['filter'], a['repl'], upsert=a['upsert'])
         return {'matched': r.matched_count, 'modified': r.modified_count, 'upserted_id': r.upserted_id}
@@ -88,19 +96,19 @@ def run_op(coll, op, clock):
             cur = coll.find(a['filter'], a.get('proj'), sort=srt, skip=a['skip'], limit=a['limit'])
         if via == 'index':
             try:
-                return canon([cur[0]])
+                return canon([kept(cur[0])])
             except IndexError:
                 return []
-        return canon(list(cur))
+        return canon(kept(list(cur)))
     if o == 'fam':
         kw = {'projection': a.get('proj'), 'sort': [tuple(x) for x in a['sort']] or None}
         if a['kind'] == 'delete':
-            return canon(coll.find_one_and_delete(a['filter'], **kw))
+            return canon(kept(coll.find_one_and_delete(a['filter'], **kw)))
         kw['upsert'] = a['upsert']
         kw['return_document'] = a['after']
         if a['kind'] == 'update':
-            return canon(coll.find_one_and_update(a['filter'], a['arg'], **kw))
-        return canon(coll.find_one_and_replace(a['filter'], a['arg'], **kw))
+            return canon(kept(coll.find_one_and_update(a['filter'], a['arg'], **kw)))
+        return canon(kept(coll.find_one_and_replace(a['filter'], a['arg'], **kw)))
     if o == 'bulk':
         reqs = [BulkReq(r['kind'], **{k: v for k, v in r.items() if k != 'kind'}) for r in a['reqs']]
         keys = ['nInserted', 'nMatched', 'nModified', 'nUpserted', 'nRemoved']
@@ -124,7 +132,7 @@ def run_op(coll, op, clock):
             kw['limit'] = a['limit']
         return coll.count_documents(a['filter'], **kw)
     if o == 'distinct':
-        return {'$set': canon(coll.distinct(a['key'], a['filter']))}
+        return {'$set': canon(kept(coll.distinct(a['key'], a['filter'])))}
     if o == 'create_index':
         kw = {}
         if a.get('unique'):
